@@ -72,6 +72,8 @@ type c19jCase struct {
 	drop       int  // index into the sorted needed-header list to leave out, -1 none
 	extra      int  // block whose header is supplied although unused, -1 none
 	wrongFinal bool // ask to finalise another block than the commit target
+	salt       byte // mixed into every header, so that the order of the block hashes varies from case to case
+	split      bool // tree and votes from genSplitTree/genSplitVotes (three-way merge shapes)
 }
 
 type c19jSpec struct {
@@ -185,7 +187,7 @@ func c19jRun[N c19jNum](c *c19jCase, s c19jSpec, pcs []c19jPC) (accepted bool, e
 		if i > 0 {
 			parent = hashes[t.parent[i]]
 		}
-		headers[i] = generic.NewHeader[N, hash.H256, runtime.BlakeTwo256](N(t.num(i)), c19jH256(0xa0, i), c19jH256(0xb0, i), parent, runtime.Digest{})
+		headers[i] = generic.NewHeader[N, hash.H256, runtime.BlakeTwo256](N(t.num(i)), c19jH256(0xa0, i), c19jH256(c.salt, i), parent, runtime.Digest{})
 		hashes[i] = headers[i].Hash()
 	}
 	var weights []fg.IDWeight[string]
@@ -280,8 +282,9 @@ func (c *c19jCase) describe(pcs []c19jPC) string {
 		c.tr.parent, c.tr.offset, c.w, c.round, c.set, c.target, c.drop, c.extra, c.wrongFinal, strings.Join(parts, ", "))
 }
 
-func genC19jCase(t *rapid.T) *c19jCase {
-	c := &c19jCase{tr: genGTree(t, 7), drop: -1, extra: -1}
+// genC19jRandom: random tree, votes concentrated on a hot chain.
+func genC19jRandom(t *rapid.T, c *c19jCase) {
+	c.tr = genGTree(t, 7)
 	tr := c.tr
 	nv := rapid.IntRange(1, 6).Draw(t, "voters")
 	unit := rapid.Bool().Draw(t, "unit")
@@ -297,8 +300,6 @@ func genC19jCase(t *rapid.T) *c19jCase {
 		total += w
 	}
 	f := (total - 1) / 3
-	c.round = rapid.Uint64Range(0, 5).Draw(t, "round")
-	c.set = rapid.Uint64Range(0, 5).Draw(t, "set")
 
 	hot := rapid.IntRange(0, tr.n()-1).Draw(t, "hotBlock")
 	var hotPath []int
@@ -336,6 +337,39 @@ func genC19jCase(t *rapid.T) *c19jCase {
 			c.pcs = append(c.pcs, c19jPC{voter: v, block: second})
 		}
 	}
+}
+
+// genC19jSplit: three-way merge shapes (see gSplit), 5-7 voters.
+func genC19jSplit(t *rapid.T, c *c19jCase) {
+	sp := genSplitTree(t)
+	c.tr = sp.tr
+	nv := rapid.IntRange(5, 7).Draw(t, "voters")
+	unit := rapid.IntRange(0, 9).Draw(t, "unit") < 7
+	for i := 0; i < nv; i++ {
+		w := uint64(1)
+		if !unit {
+			w = rapid.SampledFrom([]uint64{1, 1, 2}).Draw(t, "w")
+		}
+		c.w = append(c.w, w)
+	}
+	for _, vb := range genSplitVotes(t, sp, c.w) {
+		c.pcs = append(c.pcs, c19jPC{voter: vb[0], block: vb[1]})
+	}
+}
+
+func genC19jCase(t *rapid.T) *c19jCase {
+	c := &c19jCase{drop: -1, extra: -1}
+	c.salt = byte(rapid.IntRange(0, 255).Draw(t, "hashSalt"))
+	c.round = rapid.Uint64Range(0, 5).Draw(t, "round")
+	c.set = rapid.Uint64Range(0, 5).Draw(t, "set")
+	c.split = rapid.IntRange(0, 9).Draw(t, "splitShape") < 3
+	if c.split {
+		genC19jSplit(t, c)
+	} else {
+		genC19jRandom(t, c)
+	}
+	tr := c.tr
+	nv := len(c.w)
 	// provisional spec (target irrelevant) to learn the base
 	c.target = 0
 	base := -1
@@ -429,6 +463,12 @@ func TestC19Justification(t *testing.T) {
 			judge("uint32", c.pcs, c19jRun[uint32])
 			judge("uint32, permuted", perm, c19jRun[uint32])
 		}
+		if s.distinct >= 3 && len(c.pcs) > 2 {
+			// merge points of several vote-nodes: the order in which the nodes enter the vote graph matters to the code
+			for i := 0; i < 3; i++ {
+				judge(fmt.Sprintf("uint64, further order %d", i), rapid.Permutation(c.pcs).Draw(t, "furtherOrder"), c19jRun[uint64])
+			}
+		}
 		var labels []string
 		add := func(cond bool, l string) {
 			if cond {
@@ -451,6 +491,23 @@ func TestC19Justification(t *testing.T) {
 			}
 		}
 		add(outsider, "non-member-precommit")
+		add(c.split, "shape:split")
+		add(s.distinct >= 3, "precommits-on->=3-blocks")
+		if s.base >= 0 {
+			d := newGDefs(c.tr, s.base, c.w)
+			ph := newGPhase(len(c.w))
+			voted := map[int]bool{}
+			for _, p := range c.pcs {
+				if p.voter >= 0 {
+					ph.add(p.voter, p.block)
+					voted[p.block] = true
+				}
+			}
+			g, _ := d.ghost(ph)
+			for _, l := range gSplitLabels(c.tr, s.base, g, voted, nil) {
+				labels = append(labels, "just:"+l)
+			}
+		}
 		kit.Case("just "+c.describe(c.pcs), len(c.w) >= 3 && s.distinct >= 2, labels...)
 	})
 }
